@@ -553,10 +553,10 @@ RULE = ("Every case builds one index (TrackCollection or Network, 1-4 polylines 
         "Distinct = hash of the case.")
 
 SUBCHECKS = [
-    SubCheck("point", body_point, strategy=_case("point"), quick=5000, thorough=80000, qshards=5,
+    SubCheck("point", body_point, strategy=_case("point"), quick=10000, thorough=240000, qshards=5,
              rule="request(coord) must list every feature crossing the (shrunk) cell of the point"),
-    SubCheck("path", body_path, strategy=_case("path"), quick=3500, thorough=56000, qshards=5,
+    SubCheck("path", body_path, strategy=_case("path"), quick=7000, thorough=160000, qshards=5,
              rule="request([c1,c2]) / request(track) must list everything registered in, or crossing, each crossed cell"),
-    SubCheck("neighbourhood", body_nbh, strategy=_case("nbh"), quick=5000, thorough=80000, qshards=5,
+    SubCheck("neighbourhood", body_nbh, strategy=_case("nbh"), quick=10000, thorough=240000, qshards=5,
              rule="neighborhood(q, unit=groundDistanceToUnits(d)) must list every feature within d of q"),
 ]
